@@ -88,11 +88,14 @@ def _conc_run(scn, level, rec):
     install.install_concrete(level, script=rec.get('script'), log=log)
     stubs.PAR_MODE['order_chooser'] = None
     env = ConcEnv(rec['inputs'], rec.get('uf_tables'), log)
+    env.only_block = rec.get('block')
     if scn.setup.get('conc_setup'):
         scn.setup['conc_setup'](env)
     err = None
     try:
         scn.fn(env, **scn.params)
+    except stubs.StopReplay:
+        pass
     except stubs.ReplayDiverged as e:
         err = 'diverged: %s' % e
     except Exception as e:   # a crash of the real library on the concrete input is itself a result
@@ -144,13 +147,16 @@ def run_scenario(task):
     res = dict(scenario=sname, paths=0, transitions=0, checks=0, solver_time=0.0, obligations=0, discharged=0,
                discharged_batch=0, discharged_defs=0, candidates=0, violations=[], known=[], inconclusive=[],
                validated=0, tv_skipped=0, tv_mismatch=[], samples=[], functions=[], complete=False, error=None,
-               twin=False, twin_ok=None, cache_hits=0, unknown_feas=0, concretized=0, aborted=0, labels={}, bounds={})
+               twin=False, twin_ok=None, cache_hits=0, sub_paths=0, unknown_feas=0, concretized=0, aborted=0, labels={}, bounds={})
     try:
         import z3
         from . import core, install, stubs, npx
         from .env import SymEnv, _b
         install.load()
         _start_monitor(install.REPO)
+        for cache in (core._ABS, core._NLC, core._PUR, core.DONE_BLOCKS):
+            cache.clear()
+        del core.DEFS[:]
         prop = load_prop(pid)
         scn = [s for s in prop.scenarios(tier) if s.name == sname][0]
         res['twin'] = scn.twin
@@ -191,7 +197,7 @@ def run_scenario(task):
                 env.notes['exception'] = '%s: %s' % (type(e).__name__, e)
             return env
 
-        def record(ctx, env, model, label):
+        def record(ctx, env, model, label, block=None):
             inputs = {n: core.model_value(model, v) for n, v in ctx.vars.items()}
             script = [[k, [core.model_value(model, t) for t in ts]] for k, ts in ctx.script]
             tables = {}
@@ -199,11 +205,12 @@ def run_scenario(task):
                 tables[name] = [[[core.model_value(model, a) for a in args], core.model_value(model, out)]
                                 for args, out in calls]
             return dict(property=pid, scenario=sname, tier=tier, label=label, inputs=inputs, script=script,
-                        uf_tables=tables, trace=[b if isinstance(b, bool) else int(b) for b in ctx.trace])
+                        uf_tables=tables, trace=[b if isinstance(b, bool) else int(b) for b in ctx.trace],
+                        block=block)
 
         def try_replay(ctx, env, ob, model):
             """returns (level, record) if the failing obligation reproduces on the real library"""
-            rec = record(ctx, env, model, ob.label)
+            rec = record(ctx, env, model, ob.label, ob.snap.block if ob.snap is not None else None)
             core.Ctx.cur = None
             try:
                 for level in (1, 2):
@@ -241,15 +248,28 @@ def run_scenario(task):
             # an obligation is decided under the path prefix at which it was stated; the verdict is cached per
             # (prefix, label) because deterministic re-execution reaches the same prefix on every extension
             groups = {}
+            snaps = {}
             not_proved = set()
             for o, c in zip(obs, conds):
-                key = (tuple(ctx.trace[:o.npc]), o.label)
+                tr = o.snap.trace if o.snap is not None else ctx.trace
+                key = (tuple(tr[:o.npc]), o.label)
                 if key in proved:
                     res['discharged'] += 1
                     res['cache_hits'] += 1
                     continue
-                groups.setdefault((o.npc, o.nas), []).append((o, c, key))
-            for (npc, nas), items in groups.items():
+                sid = id(o.snap) if o.snap is not None else None
+                snaps[sid] = o.snap
+                groups.setdefault((sid, o.npc, o.nas), []).append((o, c, key))
+            for (sid, npc, nas), items in groups.items():
+                if sid is None:
+                    process_group(ctx, env, items, npc, nas, not_proved)
+                else:
+                    with ctx.view(snaps[sid]):
+                        process_group(ctx, env, items, npc, nas, not_proved)
+            finish_path(ctx, env, obs, conds, not_proved)
+
+        def process_group(ctx, env, items, npc, nas, not_proved):
+            if True:
                 cs = [c for _, c, _ in items]
                 r = ctx.check(z3.Not(z3.And(cs)) if len(cs) > 1 else z3.Not(cs[0]), npc=npc, nas=nas)
                 if r == z3.unsat:
@@ -257,7 +277,7 @@ def run_scenario(task):
                     res['discharged_batch'] += 1
                     for _, _, key in items:
                         proved.add(key)
-                    continue
+                    return
                 for o, c, key in items:
                     r = ctx.check(z3.Not(c), npc=npc, nas=nas)
                     if r == z3.unsat:
@@ -344,6 +364,7 @@ def run_scenario(task):
                             if (models or rb == z3.sat) else 'solver returned unknown'))
                 if state['nviol'] >= 3 or len(res['inconclusive']) >= 5:
                     raise core.Budget('stopping scenario after repeated failures')
+        def finish_path(ctx, env, obs, conds, not_proved):
             # samples + translation validation
             if len(res['samples']) < 2:
                 res['samples'].append(dict(scenario=sname, decisions=len(ctx.trace),
@@ -453,6 +474,7 @@ def run_scenario(task):
         if agg:
             for k in ('transitions', 'checks', 'solver_time', 'unknown_feas', 'concretized', 'aborted'):
                 res[k] = agg[k]
+            res['sub_paths'] = agg.get('sub_paths', 0)
             if not agg['complete']:
                 res['error'] = 'path budget exhausted after %d paths (%d pending)' % (agg['paths'], agg['pending_left'])
     except BaseException as e:   # harness error
@@ -527,6 +549,66 @@ def replay(pid, path):
 # ------------------------------------------------------------------------------------------------
 # driver
 
+def _blank_result(task, error):
+    return dict(scenario=task[1], paths=0, transitions=0, checks=0, solver_time=0.0, obligations=0, discharged=0,
+                discharged_batch=0, discharged_defs=0, candidates=0, violations=[], known=[], inconclusive=[],
+                validated=0, tv_skipped=0, tv_mismatch=[], samples=[], functions=[], complete=False,
+                error=error, twin=False, twin_ok=None, cache_hits=0, sub_paths=0,
+                unknown_feas=0, concretized=0, aborted=0, labels={}, bounds={}, wall=0.0)
+
+
+def _worker(inq, outq):
+    while True:
+        t = inq.get()
+        if t is None:
+            return
+        outq.put(('start', os.getpid(), t))
+        outq.put(('done', os.getpid(), run_scenario(t)))
+
+
+def _run_pool(tasks, n):
+    """plain worker processes fed from a queue (ProcessPoolExecutor/Pool with task recycling can dead-lock on 3.12)"""
+    ctxm = mp.get_context('spawn')
+    inq, outq = ctxm.Queue(), ctxm.Queue()
+    for t in tasks:
+        inq.put(t)
+    for _ in range(n):
+        inq.put(None)
+    procs = [ctxm.Process(target=_worker, args=(inq, outq), daemon=True) for _ in range(n)]
+    for p in procs:
+        p.start()
+    running = {}
+    results = []
+    import queue as _q
+    while len(results) < len(tasks):
+        try:
+            kind, wpid, payload = outq.get(timeout=5)
+        except _q.Empty:
+            # a worker that died (out of memory, crash inside the solver library) loses its task
+            for p in procs:
+                if not p.is_alive() and p.pid in running:
+                    t = running.pop(p.pid)
+                    results.append(_blank_result(t, 'worker died with exit code %s' % p.exitcode))
+            if not any(p.is_alive() for p in procs) and outq.empty():
+                break
+            continue
+        if kind == 'start':
+            running[wpid] = payload
+        else:
+            running.pop(wpid, None)
+            results.append(payload)
+            if os.environ.get('SX_VERBOSE'):
+                r = payload
+                print('  done %-40s paths=%-6d obl=%-6d wall=%.1fs %s' % (
+                    r['scenario'], r['paths'], r['obligations'], r['wall'], r['error'] or ''), flush=True)
+    for p in procs:
+        p.join(timeout=5)
+        if p.is_alive():
+            p.terminate()
+    done = {(r['scenario']) for r in results}
+    return results
+
+
 def main(argv=None):
     ap = argparse.ArgumentParser()
     ap.add_argument('pid')
@@ -548,6 +630,8 @@ def main(argv=None):
     if a.only:
         scns = [s for s in scns if fnmatch.fnmatch(s.name, a.only)]
     order = sorted(scns, key=lambda s: -s.weight)
+    if a.budget is None:
+        a.budget = float(os.environ.get('SX_BUDGET_S', '240' if a.tier == 'quick' else '2400'))
     tasks = []
     for s in order:
         if s.shards > 1 and not s.twin:
@@ -559,24 +643,7 @@ def main(argv=None):
         for t in tasks:
             results.append(run_scenario(t))
     else:
-        import concurrent.futures as cf
-        ctxm = mp.get_context('spawn')
-        with cf.ProcessPoolExecutor(max_workers=min(a.jobs, len(tasks)), mp_context=ctxm, max_tasks_per_child=12) as ex:
-            futs = {ex.submit(run_scenario, t): t for t in tasks}
-            for fu in cf.as_completed(futs):
-                try:
-                    r = fu.result()
-                except Exception as e:   # a worker died (out of memory, crash of the solver library)
-                    t = futs[fu]
-                    r = dict(scenario=t[1], paths=0, transitions=0, checks=0, solver_time=0.0, obligations=0, discharged=0,
-                             discharged_batch=0, discharged_defs=0, candidates=0, violations=[], known=[], inconclusive=[],
-                             validated=0, tv_skipped=0, tv_mismatch=[], samples=[], functions=[], complete=False,
-                             error='worker failed: %s: %s' % (type(e).__name__, e), twin=False, twin_ok=None, cache_hits=0,
-                             unknown_feas=0, concretized=0, aborted=0, labels={}, bounds={}, wall=0.0)
-                results.append(r)
-                if os.environ.get('SX_VERBOSE'):
-                    print('  done %-40s paths=%-6d obl=%-6d wall=%.1fs %s' % (
-                        r['scenario'], r['paths'], r['obligations'], r['wall'], r['error'] or ''), flush=True)
+        results = _run_pool(tasks, min(a.jobs, len(tasks)))
     return finish(pid, a, seed, prop, results, time.time() - t0)
 
 
@@ -594,6 +661,7 @@ def _merge_shards(results):
         m['shards'] += 1
         for f in ('paths', 'transitions', 'checks', 'solver_time', 'obligations', 'discharged', 'discharged_batch',
                   'discharged_defs', 'candidates', 'validated', 'tv_skipped', 'cache_hits', 'unknown_feas', 'concretized',
+                  'sub_paths',
                   'aborted'):
             m[f] += r[f]
         for f in ('violations', 'known', 'inconclusive', 'tv_mismatch', 'samples'):
@@ -660,7 +728,7 @@ def finish(pid, a, seed, prop, results, wall):
     for e in errors[:10]:
         print('HARNESS-ERROR property=%s %s' % (pid, e))
     real = [r for r in results if not r['twin']]
-    states = sum(r['paths'] for r in real)
+    states = sum(r['paths'] + r.get('sub_paths', 0) for r in real)
     cov = dict(
         states=states,
         transitions=sum(r['transitions'] for r in real),
@@ -682,7 +750,7 @@ def finish(pid, a, seed, prop, results, wall):
         translation_validation_skipped=sum(r['tv_skipped'] for r in real),
         functions_encoded=sorted({f for r in results for f in r['functions']}),
         obligation_labels=_merge_labels(real),
-        scenarios=[dict(name=r['scenario'], paths=r['paths'], obligations=r['obligations'], wall_s=r['wall'],
+        scenarios=[dict(name=r['scenario'], paths=r['paths'], nested_paths=r.get('sub_paths', 0), obligations=r['obligations'], wall_s=r['wall'],
                         complete=r['complete'], bounds=r['bounds'], twin=r['twin']) for r in results],
         reachability_twins=dict(total=sum(1 for r in results if r['twin']),
                                 violated_as_required=sum(1 for r in results if r['twin'] and r['twin_ok'])),
